@@ -195,3 +195,62 @@ Proof.
   - intros v x m. exact (other_users_irrelevant pol u v x m now).
   - intros m. exact (never_refused_without_own_quota pol u m now).
 Qed.
+
+(* ------------------------------------------------------------------ validated user records *)
+
+(* the bound of the validator is within the range where the window arithmetic does not wrap *)
+Lemma max_quota_days_ok : 0 < C19_MaxQuotaDays <= max_days.
+Proof. split; vm_compute; [reflexivity | discriminate]. Qed.
+
+Lemma validate_quota_days_ok q : validate_quota (q_days q) (q_mb q) = true -> days_ok q /\ 0 < q_mb q.
+Proof.
+  unfold validate_quota, days_ok. intros H. apply andb_true_iff in H. destruct H as [H H3].
+  apply andb_true_iff in H. destruct H as [H1 H2].
+  apply Z.ltb_lt in H1, H3. apply Z.leb_le in H2. pose proof max_quota_days_ok. lia.
+Qed.
+
+Lemma validate_user_days_ok qs : validate_user_quotas qs = true -> Forall days_ok qs.
+Proof.
+  unfold validate_user_quotas. rewrite forallb_forall. intros H. apply Forall_forall. intros q Hin.
+  apply (validate_quota_days_ok q (H q Hin)).
+Qed.
+
+Lemma check_quota_no_panic pol u m now :
+  (forall p, pol = Some p -> Forall days_ok (p_quotas p)) -> check_quota pol u m now <> QPanic.
+Proof.
+  intros Hd. unfold check_quota. destruct pol as [p|]; [|discriminate]. specialize (Hd p eq_refl).
+  destruct (negb (name_eqb (p_name p) u)); [discriminate|].
+  destruct (p_quotas p) as [|q0 qs] eqn:Eq; [discriminate|].
+  destruct (lookup u m) as [[up down]|]; [|discriminate].
+  destruct (check_quotas_spec (q0 :: qs) up down now Hd) as [_ [E|E]]; rewrite E; discriminate.
+Qed.
+
+(* every user record that passes validation: checkQuota never panics, whatever the counters and the clock *)
+Theorem validated_quota_never_panics : forall pol u m now,
+  (forall p, pol = Some p -> validate_user_quotas (p_quotas p) = true) ->
+  check_quota pol u m now <> QPanic.
+Proof.
+  intros pol u m now Hv. apply check_quota_no_panic. intros p Ep. apply validate_user_days_ok, Hv, Ep.
+Qed.
+
+Theorem quota_refuse_iff_validated : forall pol u m now,
+  (forall p, pol = Some p -> validate_user_quotas (p_quotas p) = true) ->
+  (refused (check_quota pol u m now) = true <->
+   exists p up down q, pol = Some p /\ p_name p = u /\ lookup u m = Some (up, down) /\
+                       In q (p_quotas p) /\ exceeded q up down now).
+Proof.
+  intros pol u m now Hv. apply quota_refuse_iff. intros p Ep. apply validate_user_days_ok, Hv, Ep.
+Qed.
+
+(* before the validator bound existed: a record with days just above the range made checkQuota panic *)
+Lemma unvalidated_days_overflow :
+  exists p u m now, validate_user_quotas (p_quotas p) = false /\ check_quota (Some p) u m now = QPanic.
+Proof.
+  exists (mkP ex_alice [mkQ (C19_MaxQuotaDays + 1) 1]), ex_alice, ex_m, ex_now. split; vm_compute; reflexivity.
+Qed.
+
+Example ex_validate :
+  validate_quota 1 1 = true /\ validate_quota C19_MaxQuotaDays 2047 = true /\ validate_quota (C19_MaxQuotaDays + 1) 1 = false /\
+  validate_quota 0 1 = false /\ validate_quota 1 0 = false /\
+  validate_user_quotas [mkQ 1 2; mkQ 30 100] = true.
+Proof. repeat split; vm_compute; reflexivity. Qed.
